@@ -554,8 +554,9 @@ func c02Run(payload string) string {
 				}
 				r.retStamp = atomic.AddInt64(&c02Clock, 1)
 				if c.mode == 'w' {
+					n := len(rm.AllErrors())
 					st.mu.Lock()
-					st.rec(rm.ID(), "R")
+					st.rec(rm.ID(), fmt.Sprintf("R%d", n))
 					st.mu.Unlock()
 				}
 				close(done)
@@ -795,8 +796,12 @@ func c02RunEcal(plan *c02Plan, st *c02State) string {
 				st.mu.Unlock()
 				r.val, r.err = call.Runtime.Eval(vs.NewChild(fmt.Sprintf("casc%d", ci)), make(map[string]interface{}), erp.NewThreadID())
 				r.retStamp = atomic.AddInt64(&c02Clock, 1)
+				n := 9999
+				if items, ok := r.val.([]interface{}); ok || r.val == nil {
+					n = len(items)
+				}
 				st.mu.Lock()
-				st.rec(c02RootOfCasc(st, ci), "R")
+				st.rec(c02RootOfCasc(st, ci), fmt.Sprintf("R%d", n))
 				st.mu.Unlock()
 				close(done)
 			}()
